@@ -5,6 +5,7 @@ import (
 	"bytes"
 	"context"
 	"encoding/binary"
+	"encoding/json"
 	"fmt"
 	"io"
 	"reflect"
@@ -273,7 +274,7 @@ var c07Behaviours = []string{
 	"plain", "read-after-eof", "abandon-half-read+Close", "abandon-half-read+CloseNow", "protocol-error-mid-message",
 	"local-Close-mid-compressed", "local-CloseNow-mid-compressed", "ctx-expiry-mid-compressed", "peer-close-between-fragments",
 	"bfinal-messages", "close-while-compressed-write-blocked", "wsjson", "read-after-eof-then-others-read",
-	"reader-call-mid-message", "close-under-blocked-reader", "peer-vanishes-during-compressed-writes",
+	"reader-call-mid-message", "close-under-blocked-reader", "peer-vanishes-during-compressed-writes", "consume-without-eof",
 }
 
 func c07Gen(tier string, seed int64) []fw.Case {
@@ -497,6 +498,36 @@ func c07Conn(r *fw.R, beh string, role Role, p wire.Params, seed uint64, success
 	}
 
 	switch beh {
+	case "consume-without-eof":
+		// the application reads exactly the bytes of a message (io.ReadFull, a json.Decoder) and never sees
+		// io.EOF from its reader; compressed and uncompressed messages alternate. Whatever the library makes of
+		// the next Reader call on THIS connection, its pooled objects stay this connection's until it lets go.
+		for m := uint32(0); m < 6; m++ {
+			size := 16 * (1 + rng.Intn(200))
+			comp := p.Deflate && m%2 == 0
+			for _, f := range sendMsg(m, size, comp, 1+rng.Intn(2), wire.EndSync) {
+				peer.Send(f)
+			}
+			_, rd, err := c.Reader(ctx)
+			if err != nil {
+				outcome = "reader-refused-after-unfinished-read"
+				return
+			}
+			data := make([]byte, size)
+			n, err := io.ReadFull(rd, data)
+			if w := checkProvenance(data[:n], k, m); w != "" {
+				r.Violate("C07/foreign-bytes-in-read/"+beh, fmt.Sprintf("connection %d: message %d (compressed=%v) read with ReadFull: %s", k, m, comp, w), "")
+				return
+			}
+			if err != nil {
+				outcome = "read-failed-after-unfinished-read"
+				return
+			}
+			r.Count("granules_verified", int64(n/16))
+			r.Count("messages_consumed_without_reading_eof", 1)
+		}
+		c.Close(websocket.StatusNormalClosure, "")
+		return
 	case "wsjson-invalid":
 		// documents that do not decode: wsjson.Read fails (that is its job) and the connection is closed; what
 		// the failed call did with its pooled buffer shows on the connections that decode afterwards
@@ -525,6 +556,17 @@ func c07Conn(r *fw.R, beh string, role Role, p wire.Params, seed uint64, success
 			}
 			defer swg.Wait()
 		}
+		var keptRaw []json.RawMessage
+		var keptDoc [][]byte
+		defer func() {
+			for i := range keptRaw {
+				if !bytes.Equal(bytes.TrimSpace(keptRaw[i]), keptDoc[i]) {
+					r.Violate("C07/read-result-changed-later", fmt.Sprintf("connection %d: the json.RawMessage read for document %d was this connection's document when it was returned and reads %.60q now", k, i, keptRaw[i]), "")
+					return
+				}
+			}
+			r.Count("read_results_verified_again_later", int64(len(keptRaw)))
+		}()
 		for m := uint32(0); m < 12; m++ {
 			filler := rng.Intn(3000)
 			if m%3 == 2 {
@@ -534,7 +576,20 @@ func c07Conn(r *fw.R, beh string, role Role, p wire.Params, seed uint64, success
 			doc := []byte(fmt.Sprintf(`{"tag":%q}`, tag))
 			peer.Send(wire.Data(wire.OpText, true, doc))
 			var v struct{ Tag string }
-			if err := wsjson.Read(ctx, c, &v); err != nil {
+			if m%3 == 1 {
+				// the raw text of the document is what the application asks for and keeps
+				var raw json.RawMessage
+				if err := wsjson.Read(ctx, c, &raw); err != nil {
+					r.Violate("C07/wsjson-read-failed", err.Error(), "")
+					return
+				}
+				keptRaw = append(keptRaw, raw)
+				keptDoc = append(keptDoc, doc)
+				if err := json.Unmarshal(raw, &v); err != nil {
+					r.Violate("C07/wsjson-foreign-data", fmt.Sprintf("connection %d: the raw document read is not what was sent: %v", k, err), "")
+					return
+				}
+			} else if err := wsjson.Read(ctx, c, &v); err != nil {
 				r.Violate("C07/wsjson-read-failed", err.Error(), "")
 				return
 			}
